@@ -100,10 +100,6 @@ C07Tags(r) ==
        \* (ConstrainedFDLayout::moveTo), which may have dropped a different member of the contradictory group
        {IF \E j \in rep : j \in DOMAIN r.cons /\ r.cons[j].kind \in {1, 2, 3} /\ r.cons[i].kind \in {1, 2, 3} /\ r.cons[j].dim = r.cons[i].dim /\ Holds(r, rep, r.cons[j])
         THEN <<"unreported-constraint-violated", "a-reported-constraint-of-that-dimension-holds-instead">>
-        \* the same mechanism in a contradictory group of more than two: two or more constraints of that dimension were reported by the descent
-        \* steps, the final projection gave up yet another member (none of the reported ones need hold in the result)
-        ELSE IF Cardinality({j \in rep : j \in DOMAIN r.cons /\ r.cons[j].kind \in {1, 2, 3} /\ r.cons[j].dim = r.cons[i].dim}) >= 2
-        THEN <<"unreported-constraint-violated", "two-or-more-constraints-of-that-dimension-were-reported">>
         \* the same mechanism against an unreported opponent: overlap avoidance is on, the two nodes of the violated separation overlap on the
         \* other axis and stand in the opposite order at least their non-overlap distance apart (the pair's non-overlap constraint holds instead)
         ELSE IF r.cons[i].kind = 1 /\ r.flags % 2 = 1 /\
